@@ -68,3 +68,31 @@ Proof. intros s sg. unfold pybrace_parse_gen. apply accept_implies_markup. exact
 Lemma gen_reject_if_markup_rejects : forall s,
   cpy_markup_ok s = false -> nested_guard gen_ucd (S (length s)) s = true -> exists e, pybrace_parse_gen s = Err e.
 Proof. intros s. unfold pybrace_parse_gen. apply reject_if_markup_rejects; [exact gen_ucd_chars|exact gen_ucd_ok]. Qed.
+
+(* ---------------------------------------------------------------- typing rules vs CPython's format() on the generated tables *)
+From I18n Require Import Proofs.FmtPyBraceSpec.
+
+Lemma rfind_rmem t : forall c, rfind t c <> None -> rmem t c = true.
+Proof.
+  induction t as [|l IHl lo hi r IHr]; intros c; cbn [rmem rfind]; [congruence|].
+  destruct (c <? lo); [apply IHl|]. destruct (c <=? hi); [reflexivity|apply IHr].
+Qed.
+
+Lemma gen_ucd_spec : ucd_spec gen_ucd gen_pybrace_ssize_max.
+Proof.
+  constructor.
+  - exact gen_ucd_ok.
+  - vm_compute. discriminate.
+  - intros c. cbn [u_d u_decval gen_ucd]. unfold re_d, re_d_value, rdecimal. split.
+    + intros H. pose proof (rmem_rfind re_d_tree c H) as Hf. destruct (rfind re_d_tree c); [discriminate|congruence].
+    + intros H. apply rfind_rmem. destruct (rfind re_d_tree c); [discriminate|congruence].
+  - intros c Hin. cbn [u_decval gen_ucd]. cbn [In known_types] in Hin.
+    repeat (destruct Hin as [<-|Hin]; [vm_compute; reflexivity|]). destruct Hin.
+  - split; vm_compute; reflexivity.
+  - vm_compute. reflexivity.
+Qed.
+
+Lemma gen_spec_sound : forall ftext tl tp v,
+  spec_types gen_ucd gen_pybrace_ssize_max ftext tl = Ok tp -> forallb not_brace tl = true -> spec_guard gen_ucd tl = true ->
+  val_in v tp = true -> format_value re_d_value v tl = FSuccess.
+Proof. exact (spec_sound gen_ucd gen_pybrace_ssize_max gen_ucd_spec). Qed.
